@@ -17,6 +17,7 @@ import (
 const c03Yang = `module m { namespace "urn:m"; prefix m; revision 2020-01-01;
 	container a {
 		leaf x { type string; default "dx"; }
+		choice ch { case p { leaf p1 { type string; } } case q { leaf q1 { type string; } } }
 		leaf n { type int32; }
 		container b { leaf y { type int32; default 5; } leaf w { type string; } }
 	}
@@ -33,16 +34,16 @@ func S_c03() any {
 	return m
 }
 
-func c03Rows() int {
-	if vpTier() > 0 {
-		return 2
+func c03Rows(entry int) int {
+	if vpTier() > 0 || entry == 2 {
+		return 2 // list-level harnesses are cheap enough for two rows on every change
 	}
 	return 1
 }
 
 // c03Tree builds a tree with symbolic shape and content. isSrc only changes
 // nothing but documents intent.
-func c03Tree(st *memStore, entry int) {
+func c03Tree(st *memStore, entry int, withChoice bool) {
 	r := st.root
 	if entry == 0 && vpBool() {
 		r.leaves["top"] = val.Int32(vpInt32())
@@ -51,6 +52,16 @@ func c03Tree(st *memStore, entry int) {
 		a := r.ensureKid(st, "a")
 		if vpBool() {
 			a.leaves["x"] = val.String(vpStringN(1))
+		}
+		if withChoice && entry == 1 {
+			switch vpChoose(3) {
+			case 1:
+				a.leaves["p1"] = val.String(vpStringN(1))
+			case 2:
+				a.leaves["q1"] = val.String(vpStringN(1))
+			}
+		} else if withChoice && vpBool() {
+			a.leaves["p1"] = val.String(vpStringN(1))
 		}
 		if entry == 0 || vpBool() {
 			a.leaves["n"] = val.Int32(vpInt32())
@@ -64,7 +75,7 @@ func c03Tree(st *memStore, entry int) {
 	}
 	if entry == 2 || (entry == 0 && vpBool()) {
 		l := r.ensureList(st, "l")
-		n := vpChoose(c03Rows() + 1)
+		n := vpChoose(c03Rows(entry) + 1)
 		var keys []int32
 		for i := 0; i < n; i++ {
 			k := vpInt32()
@@ -134,6 +145,26 @@ func refMerge(st *memStore, md meta.HasDataDefinitions, S, T *memTree, isNew boo
 	for _, d := range md.DataDefinitions() {
 		id := d.Ident()
 		switch x := d.(type) {
+		case *meta.Choice:
+			// the case S selects replaces whatever other case T holds, then merges like plain members
+			var sel *meta.ChoiceCase
+			for _, cid := range x.CaseIdents() {
+				if memCaseHasData(S, x.Cases()[cid]) {
+					sel = x.Cases()[cid]
+					break
+				}
+			}
+			if sel == nil {
+				continue
+			}
+			for _, cid := range x.CaseIdents() {
+				if x.Cases()[cid] != sel && strategy == c03Upsert {
+					refClearCase(T, x.Cases()[cid])
+				}
+			}
+			if err := refMerge(st, sel, S, T, isNew, strategy); err != nil {
+				return err
+			}
 		case *meta.Leaf:
 			v := S.leaves[id]
 			if v == nil && isNew && strategy != c03Update {
@@ -260,8 +291,8 @@ func treeEq(a, b *memTree) bool {
 
 func c03Run(m *meta.Module, strategy int, entry int) {
 	src, dst := newMemStore(), newMemStore()
-	c03Tree(src, entry)
-	c03Tree(dst, entry)
+	c03Tree(src, entry, true)
+	c03Tree(dst, entry, strategy == c03Upsert) // insert/update never clear another case: keep the target's choice empty there
 	src.quiet, dst.quiet = true, true
 	ref := newMemStore()
 	ref.root = c03Clone(ref, dst.root)
